@@ -13,8 +13,11 @@
    [apply_items] assigns the Known fields in order.
 
    [SK_exact_statement] is what is needed of thrift.Binary.Skip (the default branch of the
-   switches): on the encoding of a well-typed value of height <= 63 followed by anything it
-   returns exactly the encoding's length.  It is property C02's theorem about Model/Skip.v. *)
+   switches): on the encoding of a well-typed value of height <= 63 followed by any bytes it
+   returns exactly the encoding's length.  It is property C02's theorem about Model/Skip.v
+   (C02P.bskip_exact, same statement); [ENC_wf_statement] (the encoding of a well-typed value
+   consists of bytes < 256) is GrammarP.enc_wf; [SK_safe_statement] / [SK_bounded_statement] are
+   SkipP.bskip_safe / bskip_bounded.  [wf l]: every element of [l] is a byte (< 256). *)
 From GV Require Import Lib.Bytes Lib.Res Gen.Consts Model.Binary Spec.Wire Model.Skip Model.Nocopy Model.FastCodec
                        Spec.FastSpec Spec.FastRead Proofs.NocopyP Proofs.FastCodecLib Proofs.FastCodecP.
 From GV Require Spec.ThriftGrammar.
@@ -138,19 +141,19 @@ Proof. exact appex_marshal_unmarshal. Qed.
    multiplicity, unknown ones of every type anywhere — then STOP, then anything: the read succeeds,
    consumes exactly fields + STOP, and the struct is the receiver with the known fields assigned
    in order ---------- *)
-Theorem C11_read_any_order_unknowns_base : SK_exact_statement -> forall p its rest,
-  forallb (ritem_ok base_schema) its = true ->
+Theorem C11_read_any_order_unknowns_base : SK_exact_statement -> ENC_wf_statement -> forall p its rest,
+  forallb (ritem_ok base_schema) its = true -> wf rest ->
   base_read (Some p) (enc_ritems its ++ rest) = Ok (Some (apply_items base_apply p its), len (enc_ritems its)).
 Proof. exact base_read_any_order_unknowns. Qed.
 
-Theorem C11_read_any_order_unknowns_baseresp : SK_exact_statement -> forall p its rest,
-  forallb (ritem_ok baseresp_schema) its = true ->
+Theorem C11_read_any_order_unknowns_baseresp : SK_exact_statement -> ENC_wf_statement -> forall p its rest,
+  forallb (ritem_ok baseresp_schema) its = true -> wf rest ->
   baseresp_read (Some p) (enc_ritems its ++ rest) = Ok (Some (apply_items baseresp_apply p its), len (enc_ritems its)).
 Proof. exact baseresp_read_any_order_unknowns. Qed.
 
 (* the D3 repair is what makes this one true *)
-Theorem C11_read_any_order_unknowns_appex : SK_exact_statement -> forall e its rest,
-  forallb (ritem_ok appex_schema) its = true ->
+Theorem C11_read_any_order_unknowns_appex : SK_exact_statement -> ENC_wf_statement -> forall e its rest,
+  forallb (ritem_ok appex_schema) its = true -> wf rest ->
   appex_read (Some e) (enc_ritems its ++ rest) =
   Ok (Some (xrec (apply_items appex_apply (xpair e) its)), len (enc_ritems its)).
 Proof. exact appex_read_any_order_unknowns. Qed.
@@ -177,20 +180,20 @@ Proof. exact appex_last. Qed.
 
 (* ---------- FastRead on ARBITRARY bytes (reused by C03): never a panic or an out-of-bounds access,
    never reports more than it was given — provided Binary.Skip is safe and bounded ---------- *)
-Theorem C11_fastread_total : SK_safe_statement -> SK_bounded_statement -> forall b,
+Theorem C11_fastread_total : SK_safe_statement -> SK_bounded_statement -> forall b, wf b ->
   safe (fastread_base b) /\ safe (fastread_baseresp b) /\ safe (fastread_appex b).
 Proof.
-  intros S B b.
-  exact (conj (fastread_base_total S B b) (conj (fastread_baseresp_total S B b) (fastread_appex_total S B b))).
+  intros S B b W.
+  exact (conj (fastread_base_total S B b W) (conj (fastread_baseresp_total S B b W) (fastread_appex_total S B b W))).
 Qed.
-Theorem C11_fastread_bounded : SK_safe_statement -> SK_bounded_statement -> forall b n,
+Theorem C11_fastread_bounded : SK_safe_statement -> SK_bounded_statement -> forall b n, wf b ->
   (forall p, fastread_base b = Ok (p, n) -> n <= len b) /\
   (forall p, fastread_baseresp b = Ok (p, n) -> n <= len b) /\
   (forall p, fastread_appex b = Ok (p, n) -> n <= len b).
 Proof.
-  intros S B b n.
-  exact (conj (fun p => fastread_base_bounded S B b p n)
-              (conj (fun p => fastread_baseresp_bounded S B b p n) (fun p => fastread_appex_bounded S B b p n))).
+  intros S B b n W.
+  exact (conj (fun p => fastread_base_bounded S B b p n W)
+              (conj (fun p => fastread_baseresp_bounded S B b p n W) (fun p => fastread_appex_bounded S B b p n W))).
 Qed.
 
 (* ---------- non-vacuity ---------- *)
@@ -228,5 +231,10 @@ Proof. vm_compute. split; reflexivity. Qed.
 Example C11_SK_instances :
   binary_skip (ThriftGrammar.enc (ThriftGrammar.VList 11 [ThriftGrammar.VStr [1; 2]; ThriftGrammar.VStr []]) ++ [9; 9]) 15 =
     Ok (len (ThriftGrammar.enc (ThriftGrammar.VList 11 [ThriftGrammar.VStr [1; 2]; ThriftGrammar.VStr []]))) /\
-  safe (binary_skip [12; 0] 15) /\ (forall n, binary_skip [0; 0; 0; 1; 7; 7] 11 = Ok n -> n <= 6).
-Proof. vm_compute. split; [reflexivity|]. split; [exact I|]. intros n H. inversion H. discriminate. Qed.
+  safe (binary_skip [12; 0] 15) /\ (forall n, binary_skip [0; 0; 0; 1; 7; 7] 11 = Ok n -> 1 <= n <= 6) /\
+  wf (ThriftGrammar.enc (ThriftGrammar.VList 11 [ThriftGrammar.VStr [1; 2]; ThriftGrammar.VStr []])).
+Proof.
+  split; [vm_compute; reflexivity|]. split; [vm_compute; exact I|]. split.
+  - intros n H. vm_compute in H. inversion H. lia.
+  - apply wfbb_wf. vm_compute. reflexivity.
+Qed.
